@@ -273,8 +273,18 @@ class BalancingLearner(BaseLearner):
             return [], []
 
         if not tell_pending:
-            with restore(*self.learners):
-                return self._ask_and_tell(n)
+            caches = (self._ask_cache, self._loss, self._pending_loss)
+            self._ask_cache, self._loss, self._pending_loss = map(dict, caches)
+            try:
+                with restore(*self.learners):
+                    return self._ask_and_tell(n)
+            finally:
+                # The children are back in their old state: so are the caches
+                # and the position in the cycle.
+                self._ask_cache, self._loss, self._pending_loss = caches
+                if self._strategy == "cycle":
+                    for _ in range(-n % len(self.learners)):
+                        next(self._cycle)
         else:
             return self._ask_and_tell(n)
 
